@@ -29,6 +29,8 @@ Interleaved (M1, every schedule, any number of threads):
                             collections, restarts): a request that is no longer blocked is never blocked again and
                             never answered with a grant; `cancel_makes_gone`: a cancelled call is such a request.
                             (Invariant `Core.QP`: every queued call is a blocked call of that lock's name, queued once.)
+* `answered_at_most_once`  — if an operation answers a blocked call (grant or error), no operation of any
+                            continuation answers it again (`Core.step_answered_gone`, `Core.step_evgone`).
 * `disconnect_answers_waiters` — a session end answers every blocked call of the session with an error and
                             leaves none of them blocked.
 Timed (M2, sequential, virtual time):
@@ -175,11 +177,12 @@ theorem wait_timeout_zero_is_none (s : Core.St M) (sid : Option Sid) (n : Core.S
 
 /-- after any history, a request number that has been issued and is not blocked (the call was answered: it was
 granted earlier, or it gave up - wait time-out, cancel, disconnect - or a restart ended it) is never blocked
-again and no later operation of any continuation answers it with a grant: releases, expiries, session ends
-and collections hand units only to calls that are blocked at that moment (`Core.step_evok`) -/
+again and no later operation of any continuation answers it - with a grant or with anything else: every
+completion event of every operation belongs to a call that is blocked at that moment (`Core.step_evok`), so a
+call is never answered after it has returned -/
 theorem abandoned_never_granted (ho : o.Lawful) (ops more : List Op) (q : Nat) (hg : Gone q (Core.run o c ops))
     (op : Op) (k : Core.Str) (e : Option Err) :
-    Gone q (Core.run o c (ops ++ more)) ∧ Event.done q true k e ∉ (Core.step o c (Core.run o c (ops ++ more)) op).2.events := by
+    Gone q (Core.run o c (ops ++ more)) ∧ (∀ b, Event.done q b k e ∉ (Core.step o c (Core.run o c (ops ++ more)) op).2.events) := by
   have hrun : Core.run o c (ops ++ more) = more.foldl (fun s op => (Core.step o c s op).1) (Core.run o c ops) := by
     unfold Core.run; rw [List.foldl_append]
   have hgone : Gone q (Core.run o c (ops ++ more)) := by
@@ -191,9 +194,23 @@ theorem abandoned_never_granted (ho : o.Lawful) (ops more : List Op) (q : Nat) (
       | cons x xs ih => intro s0 h0; simp only [List.foldl_cons]; exact ih _ (step_gone h0 x)
     exact key more _ hg
   refine ⟨hgone, ?_⟩
-  intro hmem
+  intro b hmem
   obtain ⟨hu, hq⟩ := run_pq (c := c) ho (ops ++ more)
-  exact hgone.not_granted (step_evok ho hu hq op _ hmem) k e rfl
+  exact hgone.not_answered (step_evok ho hu hq op _ hmem) b k e rfl
+
+/-- **a blocked call is answered at most once**: if an operation of a history answers request `q` - with a grant or
+with an error - then `q` is not blocked afterwards and no operation of any continuation answers `q` again -/
+theorem answered_at_most_once (ho : o.Lawful) (ops more : List Op) (op0 : Op) (q : Nat) (b0 : Bool) (k0 : Core.Str) (e0 : Option Err)
+    (h0 : Event.done q b0 k0 e0 ∈ (Core.step o c (Core.run o c ops) op0).2.events)
+    (op : Op) (b : Bool) (k : Core.Str) (e : Option Err) :
+    Event.done q b k e ∉ (Core.step o c (Core.run o c ((ops ++ [op0]) ++ more)) op).2.events := by
+  obtain ⟨hu, hq⟩ := run_pq (c := c) ho ops
+  have hg : Gone q (Core.run o c (ops ++ [op0])) := by
+    have : Core.run o c (ops ++ [op0]) = (Core.step o c (Core.run o c ops) op0).1 := by
+      unfold Core.run; rw [List.foldl_append]; rfl
+    rw [this]
+    exact step_answered_gone ho hu hq op0 q b0 k0 e0 h0
+  exact (abandoned_never_granted ho (ops ++ [op0]) more q hg op k e).2 b
 
 /-- giving up makes a call gone: after its cancellation nothing with its request number is blocked -/
 theorem cancel_makes_gone (ops : List Op) (p : Pending) (hp : p ∈ (Core.run o c ops).pending) :
